@@ -3,14 +3,19 @@
 For each open line of KNOWN_FINDINGS.txt the check is run with a scratch home whose findings file
 lacks that line, so that the finding is reported (and minimised) like any violation; the first
 replay file that, replayed against the real home, prints REPRODUCED-KNOWN-FINDING for the slug is kept.
-Usage: tools/mkfindings.py [budget_s]   (uses the binaries in .build: run ./check build first)"""
+Usage: tools/mkfindings.py [budget_s [slug]]   (uses the binaries in .build: run ./check build first;
+with a slug only that finding's file is made again, the others are kept)"""
 import os, re, subprocess, sys, tempfile, shutil, glob
 HERE = os.path.dirname(os.path.dirname(os.path.abspath(__file__)))
 budget = sys.argv[1] if len(sys.argv) > 1 else '60'
 lines = open(HERE + '/KNOWN_FINDINGS.txt').read().split('\n')
 opens = [(m.group(1), m.group(2)) for l in lines for m in [re.match(r'open: property=(\S+) finding=(\S+)', l)] if m]
 os.makedirs(HERE + '/findings', exist_ok=True)
-for f in glob.glob(HERE + '/findings/*.json'): os.remove(f)
+only = sys.argv[2] if len(sys.argv) > 2 else None
+if only:
+    opens = [(p, s) for p, s in opens if s == only]
+else:
+    for f in glob.glob(HERE + '/findings/*.json'): os.remove(f)
 for prop, slug in opens:
     tmp = tempfile.mkdtemp(prefix='mkfind-', dir=HERE + '/.build')
     try:
